@@ -29,6 +29,13 @@ type c07plan struct {
 	// cancelled when its answer is in, the second has its own; "first-expires" = the first context (5 s) is left to
 	// expire while the second request, with its own context, is still waiting for its answer (which comes at 10 s)
 	handlerAsks bool // the ordinary iq route reacts to a stray IQ by sending a request of its own
+	// ctxKind: "" = a context with a deadline (60 s); "cancel-only" = context.WithCancel, no deadline: it ends only
+	// when the caller cancels it
+	ctxKind string
+	// answer: "" = an empty result; "error-full" = type error with an <error/> child; "error-bare" = type error and
+	// nothing else; "error-echo" = type error echoing the payload of the request, no <error/> child (RFC 6120 8.3.1
+	// makes the echo optional, and servers differ in what they put in); "result-payload" = a result with a payload
+	answer string
 }
 
 func (p c07plan) name() string {
@@ -45,6 +52,12 @@ func (p c07plan) name() string {
 	}
 	if p.handlerAsks {
 		extra += "/handler-asks"
+	}
+	if p.ctxKind != "" {
+		extra += "/ctx=" + p.ctxKind
+	}
+	if p.answer != "" {
+		extra += "/answer=" + p.answer
 	}
 	return fmt.Sprintf("%s/reqs=%d/sameid=%v/behave=%s/respond=%s%s", who, p.reqs, p.sameID, strings.Join(p.behave, "+"), p.respond, extra)
 }
@@ -120,6 +133,18 @@ func c07body(p c07plan) func() {
 				}
 				id := attr(u.raw, "id")
 				res := fmt.Sprintf("<iq type='result' id='%s' from='example.org'/>", id)
+				if id != "final" && id != "hreq" {
+					switch p.answer {
+					case "error-full":
+						res = fmt.Sprintf("<iq type='error' id='%s' from='example.org'><error type='cancel'><item-not-found xmlns='urn:ietf:params:xml:ns:xmpp-stanzas'/></error></iq>", id)
+					case "error-bare":
+						res = fmt.Sprintf("<iq type='error' id='%s' from='example.org'/>", id)
+					case "error-echo":
+						res = fmt.Sprintf("<iq type='error' id='%s' from='example.org'><query xmlns='http://jabber.org/protocol/disco#info'/></iq>", id)
+					case "result-payload":
+						res = fmt.Sprintf("<iq type='result' id='%s' from='example.org'><query xmlns='http://jabber.org/protocol/disco#info'><feature var='urn:example:f'/></query></iq>", id)
+					}
+				}
 				answered[id]++
 				if id == "final" || id == "hreq" {
 					sc.send(res) // requests of the probe phase / of the handler are simply answered
@@ -203,6 +228,9 @@ func c07body(p c07plan) func() {
 			caller := func() {
 				res := results[i]
 				ctx, cancel := vrt.WithTimeout(vrt.Background(), 60*time.Second)
+				if p.ctxKind == "cancel-only" {
+					ctx, cancel = vrt.WithCancel(vrt.Background())
+				}
 				if p.reuseCtx == "first-expires" {
 					ctx, cancel = vrt.WithTimeout(vrt.Background(), 5*time.Second)
 				}
@@ -742,6 +770,26 @@ func TestVerifC07(t *testing.T) {
 		plans = append(plans, c07plan{comp: comp, reqs: 1, behave: []string{"recv"}, respond: "once", seqReuse: true, reuseCtx: "first-given-up"})
 		for _, respond := range []string{"twice", "foreign-then-once"} {
 			plans = append(plans, c07plan{comp: comp, reqs: 1, behave: []string{"recv"}, respond: respond, handlerAsks: true})
+		}
+	}
+	// the same plans with the other kinds of context and of answer (single requests, and two concurrent ones with
+	// distinct ids)
+	for _, p := range append([]c07plan{}, plans...) {
+		if p.seqReuse || p.handlerAsks || p.sameID || p.respond == "none" {
+			continue
+		}
+		if p.behave[0] != "abandon" && (len(p.behave) == 1 || p.behave[1] != "abandon") {
+			q := p
+			q.ctxKind = "cancel-only"
+			plans = append(plans, q)
+		}
+		for _, a := range []string{"error-full", "error-bare", "error-echo", "result-payload"} {
+			if p.reqs == 2 && !hx.Thorough() && a != "error-bare" {
+				continue
+			}
+			q := p
+			q.answer = a
+			plans = append(plans, q)
 		}
 	}
 	var scs []hx.Scenario
